@@ -399,7 +399,8 @@ def op_unzip(ctx, t):
 def op_inspect(ctx, t):
     if has_iter(t):
         return None
-    c, i = cl(ctx, "v: &%s" % ty(t), "", "v.obs()")
+    # (the callback captures a symbolic scalar: a capturing closure is not zero-sized, so boxing it would allocate - C19)
+    c, i = cl(ctx, "v: &%s" % ty(t), "", "v.obs() ^ %s" % ctx.k())
     return Step("??", "?? " + c, lambda b: "{ let x = %s; (%s)(&x); x }" % (b, c), t, ids=[i])
 
 
